@@ -93,6 +93,7 @@ def run_shard(spec, acc):
         for i in range(spec['n']):
             rnd = random.Random(base + i)
             gen = gen_prog.ProgGen(rnd, maxdepth=rnd.choice([2, 3, 4, 5]))
+            gen.late_defs = True
             prog = gen.program()
             allow_wc = rnd.random() < 0.12
             prog = gen_prog.fix_while_continue(prog, allow_wc)
